@@ -411,6 +411,7 @@ func runTarget(p *Loaded, t Target, selRet int) (res *TargetResult) {
 		}
 		x.harness = t.Spec.SSAName
 		x.behavior, x.behaviorFn, x.noSafety = t.Spec.Behavior, t.Spec.SSAName, t.Spec.NoSafety
+		x.driver, x.assumePre, x.exitNonZero = t.Spec.Driver, t.Spec.AssumePre, t.Spec.ExitNonZero
 		res.Opaque = map[string]bool{}
 		for _, n := range t.Spec.OpaqueFns {
 			res.Opaque["f!"+n] = true
@@ -462,6 +463,13 @@ func runTarget(p *Loaded, t Target, selRet int) (res *TargetResult) {
 		if !cm.done && x.st != nil {
 			res.Err = "contract harness did not reach the call"
 		}
+	}
+	if x.driver && selRet == 0 && x.st != nil && res.Err == "" {
+		// normal return of the procedure: no fault may have happened on the way
+		x.failStop("return-after-fault", token.NoPos)
+		x.curFunc = append(x.curFunc, t.Name)
+		x.oblige("F", "sends-something", BoolC(x.sends > 0), token.NoPos)
+		x.curFunc = x.curFunc[:len(x.curFunc)-1]
 	}
 	// vacuity guard: the end of the harness must be reachable under all assumptions made on the
 	// way (requires, callee postconditions, invariants).  "false" must NOT be provable there.
